@@ -300,8 +300,10 @@ def _r4(ctx, f):
     for stmt, desc in want.items():
         ctx.check(any(b == stmt or b.replace("_", "i") == stmt.replace("_", "i") for b in body), "R4", desc,
                   f.where(u), "the unknown path does not set `%s`" % stmt, f.qname, "unknown path: " + desc)
-    flags_ok = any(pm.match("flags += [INSTR_FLAGS.TP_UNKWN, INSTR_FLAGS.LT_UNKWN]", s) or pm.match(
-        "flags += [INSTR_FLAGS.LT_UNKWN, INSTR_FLAGS.TP_UNKWN]", s) for s in u.body)
+    # `flags += [...]` / `flags.extend(...)` / `flags.append(...)` statements that bring in both flags (directly or via a constant)
+    adders = [s for s in u.body if (isinstance(s, ast.AugAssign) and U(s.target) == "flags") or (
+        isinstance(s, ast.Expr) and isinstance(s.value, ast.Call) and U(s.value.func) in ("flags.extend", "flags.append"))]
+    flags_ok = all(any(C.mentions(ctx, f, s, w) for s in adders) for w in ("TP_UNKWN", "LT_UNKWN"))
     ctx.check(flags_ok, "R4", "both unknown flags are set", f.where(u),
               "the unknown path does not add both TP_UNKWN and LT_UNKWN", f.qname, "unknown path: flags")
     lw = [s for s in u.body if isinstance(s, ast.Assign) and U(s.targets[0]) == "latency_wo_load"]
